@@ -8,7 +8,7 @@ COMMON_ASSUMPTIONS = [
     'mark_modified(&self) is modelled as appending the key to a ghost log (interior mutability of ShardWatchTracker is outside Verus)',
 ]
 
-SHARD_VALUE_UNITS = ['vm_new', 'vm_with_expiration', 'vm_is_expired', 'vm_set_expiration', 'vm_clear_expiration',
+SHARD_VALUE_UNITS = ['deadline_after', 'vm_new', 'vm_with_expiration', 'vm_is_expired', 'vm_set_expiration', 'vm_clear_expiration',
                      'sv_new', 'sv_with_expiration', 'sv_is_expired', 'value_integer', 'value_as_integer']
 
 from . import tables as _t
@@ -48,7 +48,7 @@ SETRANGE_KANI = [
 PROPS = {
     'C01': {
         'level': 'proof',
-        'verus': [{'group': 'shard_core'}, _sg('shard_strings'), {'group': 'shard_sweeper', 'units': ['rename_same_shard', 'rename_cross_shard']}],
+        'verus': [{'group': 'shard_core'}, _sg('shard_strings'), {'group': 'shard_sweeper', 'units': ['rename_same_shard', 'rename_cross_shard']}, {'group': 'cmd_strings'}],
         'kani': SETRANGE_KANI,
         'explanation': 'kernel-scoped: storage-engine string/key functions proved against Redis-semantics spec functions on one shard; handlers/dispatch are unverified surroundings',
     },
@@ -93,7 +93,7 @@ PROPS = {
     'C09': {
         'level': 'proof',
         # the loader re-inserts through set_value/expire with the TTL computed by rdb_load_ttl: the deadline those install is part of the round trip
-        'verus': [{'group': 'c09_rdb'}, {'group': 'shard_core', 'units': ['vm_with_expiration', 'vm_set_expiration', 'vm_is_expired', 'sv_with_expiration', 'sv_is_expired', 'set_value', 'expire']}],
+        'verus': [{'group': 'c09_rdb'}, {'group': 'shard_core', 'units': ['deadline_after', 'vm_with_expiration', 'vm_set_expiration', 'vm_is_expired', 'sv_with_expiration', 'sv_is_expired', 'set_value', 'expire']}],
         'kani': RDB_KANI,
         'explanation': 'codec level: length / fixed-width field encoders and decoders are inverse for every value (Kani, complete); expiry-on-load computation proved (Verus). Value-level round trip is not under contract',
     },
